@@ -13,6 +13,7 @@ import (
 	"encoding/json"
 	"fmt"
 	"os"
+	"runtime"
 	"strings"
 	"sync"
 	"time"
@@ -73,8 +74,24 @@ func body(x string) interface{} {
 	return message.GlobalCommitRequest{AbstractGlobalEndRequest: message.AbstractGlobalEndRequest{Xid: x}}
 }
 
-// run replays a history on a fresh registry and returns the first violated clause.
+// poisoned: policies under which a selection was left blocked for good. Every such selection leaves goroutines behind that
+// make the quiescence probe slower and slower, so the remaining histories of that policy are not run (the violation is
+// already recorded; the run is reported as not exhaustive).
+var poisoned = map[string]bool{}
+
 func run(policy string, h History) (clause, detail string) {
+	if poisoned[policy] {
+		return "", ""
+	}
+	clause, detail = run1(policy, h)
+	if clause == "selection-blocks" {
+		poisoned[policy] = true
+	}
+	return clause, detail
+}
+
+// run1 replays a history on a fresh registry and returns the first violated clause.
+func run1(policy string, h History) (clause, detail string) {
 	if policy == "ConsistentHashLoadBalance" {
 		quiet.Spin(nil, 2) // the ring is refreshed on a goroutine of its own: let the previous history's refresh finish
 		defer quiet.Spin(nil, 2)
@@ -132,8 +149,11 @@ func run(policy string, h History) (clause, detail string) {
 				}
 			}
 			msg := message.RpcMessage{ID: 1, Type: message.GettyRequestTypeRequestSync, Codec: byte(codec.CodecTypeSeata), Body: body(x)}
-			var got getty.Session
-			if p := catchPanic(func() { got = sgetty.VerifSelectSession(msg) }); p != "" {
+			got, p, blocked := selectWatched(msg)
+			if blocked {
+				return "selection-blocks", fmt.Sprintf("step %d: selecting a session for xid %q with %d open session(s) never returned: every goroutine of the process is blocked", step, x, len(open))
+			}
+			if p != "" {
 				return "selection-panics", fmt.Sprintf("step %d: selecting a session for xid %q with %d open session(s) panicked: %s", step, x, len(open), p)
 			}
 			if len(open) == 0 {
@@ -293,6 +313,11 @@ func partA(r *rep.Run, thorough bool) {
 			}
 		}
 		r.Count("histories/"+p, int64(n))
+		if poisoned[p] {
+			r.Exhaustive = false
+			r.Count("policies_cut_short_after_a_blocked_selection", 1)
+			continue
+		}
 		waitingSelection(r, p)
 		ringSweep(r, p, 400)
 	}
@@ -370,6 +395,35 @@ func waitingSelection(r *rep.Run, policy string) {
 			}
 		}
 	}
+}
+
+// selectWatched runs one selection on a goroutine of its own. It normally returns within a few yields; if it does not, the
+// process is watched until the selection returns or everything is blocked (a selection waiting for a lock nobody will
+// release); a blocked selection is left behind, the next history starts on a fresh registry and balancer.
+func selectWatched(msg interface{}) (got getty.Session, panicked string, blocked bool) {
+	type res struct {
+		s getty.Session
+		p string
+	}
+	done := make(chan res, 1)
+	go func() {
+		var r res
+		r.p = catchPanic(func() { r.s = sgetty.VerifSelectSession(msg) })
+		done <- r
+	}()
+	for i := 0; i < 200; i++ {
+		select {
+		case r := <-done:
+			return r.s, r.p, false
+		default:
+			runtime.Gosched()
+		}
+	}
+	if quiet.Spin(func() bool { return len(done) > 0 }, 3) {
+		return nil, "", true
+	}
+	r := <-done
+	return r.s, r.p, false
 }
 
 func catchPanic(f func()) (p string) {
